@@ -113,7 +113,8 @@ def one(ctx, cfg, n, seq, clock=None, do_model=True, name="minimize", parts=None
         tc.filename = str(loaders.scratch() / "c14-collapse.txt")
     run = strat.run_real(name, cfg, tc, lambda k, c: seq[k % len(seq)], clock_times=clock, max_tests=20000)
     case = dict(strategy=name, cfg=cfg, n=n, verdicts="".join("1" if v else "0" for v in run.verdicts[:150]), clock=(clock or [])[:40])
-    if do_model and name in strat.MODELLED and not cfg.get("move"):
+    endless = bool(run.error) and ("test-limit" in run.error or "hang" in run.error)
+    if do_model and name in strat.MODELLED and not (cfg.get("move") and endless):
         ctx.expect(name, strat.model_line(name, cfg, f, run.verdicts, clock), run.encode(), case)
     else:
         ctx.evaluations += 1
